@@ -18,23 +18,23 @@ import (
 )
 
 type Obligation struct {
-	Name     string
-	Kind     string // safety ensures requires invariant-init invariant-preserve frame lemma cover
-	Func     string
-	Labels   []string
-	Asserts  []*Term // path condition
-	Goal     *Term
-	Pos      string
-	Clause   *Clause
-	x        *Exec
-	Inputs   []NamedVal // parameters of the function under verification (for replay)
-	Outputs  []NamedVal // results at a return site (ensures obligations)
-	PanicObl bool
-	Detail   string
-	Trivial  bool
-	Result   *SolveResult
-	Region   *Term // known-finding region (if the obligation is listed)
-	Finding  *Finding
+	Name      string
+	Kind      string // safety ensures requires invariant-init invariant-preserve frame lemma cover
+	Func      string
+	Labels    []string
+	Asserts   []*Term // path condition
+	Goal      *Term
+	Pos       string
+	Clause    *Clause
+	x         *Exec
+	Inputs    []NamedVal // parameters of the function under verification (for replay)
+	Outputs   []NamedVal // results at a return site (ensures obligations)
+	PanicObl  bool
+	Detail    string
+	Trivial   bool
+	Result    *SolveResult
+	Region    *Term // known-finding region (if the obligation is listed)
+	Finding   *Finding
 	ModelVals Model
 }
 
@@ -45,56 +45,56 @@ type NamedVal struct {
 }
 
 type Frame struct {
-	id       int
-	fn       *ssa.Function
-	env      map[ssa.Value]SVal
-	params   []SVal
-	depth    int
-	contract *Contract
-	top      bool
-	entry    *State
-	results  []SVal // named at return for ensures
-	headers  map[*ssa.BasicBlock]int
-	loopPre  map[int]map[*Object]*ObjState // memory right after havoc at loop N
+	id         int
+	fn         *ssa.Function
+	env        map[ssa.Value]SVal
+	params     []SVal
+	depth      int
+	contract   *Contract
+	top        bool
+	entry      *State
+	results    []SVal // named at return for ensures
+	headers    map[*ssa.BasicBlock]int
+	loopPre    map[int]map[*Object]*ObjState // memory right after havoc at loop N
 	ghostLocal map[string]SVal
-	callSite string
-	noOver   map[*Object]bool
+	callSite   string
+	noOver     map[*Object]bool
 }
 
 type Exec struct {
-	prog     *Program
-	tb       *TB
-	fn       *ssa.Function
-	key      string
-	contract *Contract
-	prop     string
-	obls     []*Obligation
-	nextObj  int
-	nextFrame int
-	warnings map[string]bool
-	unmodelled map[string]bool
-	inlined  map[string]bool
-	usedContracts map[string]bool
-	builtinModels map[string]bool
-	globals  map[*ssa.Global]*Object
-	initState *State
-	paths    int
-	returns  int
-	covers   []*Obligation
-	safetyOn bool
-	noOverread bool
-	maxPaths int
-	aborted  string
-	typeTags map[string]int64
-	strIds   map[string]int64
-	crcSnaps []*crcSnap
-	errIsFun *FunDecl
-	inputs   []NamedVal
-	ghostDecl map[string]types.Type
-	dummyObj *Object
-	entryMem map[*Object]*ObjState
+	prog           *Program
+	tb             *TB
+	fn             *ssa.Function
+	key            string
+	contract       *Contract
+	prop           string
+	obls           []*Obligation
+	nextObj        int
+	nextFrame      int
+	warnings       map[string]bool
+	unmodelled     map[string]bool
+	inlined        map[string]bool
+	usedContracts  map[string]bool
+	builtinModels  map[string]bool
+	globals        map[*ssa.Global]*Object
+	initState      *State
+	paths          int
+	returns        int
+	covers         []*Obligation
+	safetyOn       bool
+	noOverread     bool
+	maxPaths       int
+	aborted        string
+	typeTags       map[string]int64
+	strIds         map[string]int64
+	crcSnaps       []*crcSnap
+	errIsFun       *FunDecl
+	inputs         []NamedVal
+	ghostDecl      map[string]types.Type
+	dummyObj       *Object
+	entryMem       map[*Object]*ObjState
 	lockDiscipline bool
-	funcIds  map[string]int64
+	funcIds        map[string]int64
 }
 
 func NewExec(prog *Program, fn *ssa.Function, prop string) *Exec {
@@ -343,6 +343,10 @@ func setPath(v SVal, path []int, nv SVal) SVal {
 
 // readElem reads element (or sub-path of element) of an array object at index idx.
 func (x *Exec) readElem(st *State, o *Object, idx *Term, path []int, t types.Type) SVal {
+	if o.Dummy {
+		// read through a nil slice (only reachable in spec expressions under a false guard)
+		return x.symbolic(st, t, "nilread", false, 3)
+	}
 	os := x.objState(st, o)
 	if s, ok := scalarSort(t); ok {
 		c := os.Leaves[pathKey(path)]
@@ -366,6 +370,9 @@ func (x *Exec) readElem(st *State, o *Object, idx *Term, path []int, t types.Typ
 }
 
 func (x *Exec) writeElem(st *State, o *Object, idx *Term, path []int, t types.Type, v SVal) {
+	if o.Dummy {
+		return
+	}
 	os := x.objState(st, o)
 	n := &ObjState{Leaves: map[string]*Content{}, ALen: os.ALen}
 	for k, c := range os.Leaves {
